@@ -74,7 +74,61 @@ def _handler_protocol(ex, st, post, result):
            'authorization returned>)')
 
 
-SVC_FIELDS = {'cacheable': 'bool', 'timestamp': 'opt[real]', 'size': 'opt[int]'}
+def _tile_answer(ex, st, post, result):
+    """the answer is built from the rendered tile and made conditional on the headers of THIS request; the address
+    origin of the service (TMS option / KML) is applied to the request before the layer is looked up"""
+    import z3
+    from pyvc.values import eq, VStr
+    renders = [e for i, e in T.evs(st, 'render') if not e.raised]
+    resp = [e for i, e in T.evs(st, 'Response')]
+    if not renders or not resp:
+        return
+    req = [post.env[n] for n in ('request', 'tile_request', 'map_request') if n in post.env][0]
+    tile = renders[-1].result
+    ab = [e for i, e in T.evs(st, 'as_buffer')]
+    chs = [e for i, e in T.evs(st, 'cache_headers')]
+    mc = [e for i, e in T.evs(st, 'make_conditional')]
+    ok = len(resp) == 1 and len(ab) == 1 and ab[0].recv is not None and ab[0].recv.t.eq(tile.t) and resp[0].args[0] is ab[0].result \
+        and result is resp[0].result and all(e.recv is not None and e.recv.t.eq(result.t) for e in chs + mc) and len(mc) == 1
+    g = z3.BoolVal(bool(ok))
+    if ok:
+        a = [x for x in mc[0].args if x is not mc[0].recv]
+        g = z3.And(g, z3.BoolVal(len(a) == 1), eq(a[0], ex.opaque_field_at(st, mc[0], req, 'http')) if len(a) == 1 else z3.BoolVal(False))
+        h = st.heap[post.env['self'].ref]
+        for e in chs:
+            if 'max_age' in e.kwargs:
+                g = z3.And(g, eq(e.kwargs['max_age'], h['max_tile_age']))
+    ct = resp[0].kwargs.get('content_type')
+    g_ct = z3.BoolVal(False)
+    t = getattr(ct, 't', None)
+    if t is not None and z3.is_app(t) and t.decl().name() == 'opaque_binop_Add' and z3.is_app(t.arg(0)) \
+            and t.arg(0).decl().name() == 'opaque_of_str' and z3.is_string_value(t.arg(0).arg(0)) and t.arg(0).arg(0).as_string() == 'image/':
+        fmt = t.arg(1)
+        tf = ex.opaque_field_at(st, resp[0], tile, 'format') if 'format' in (ex.cur_target or {}).get('opaque_fields', {}) else None
+        # the format of the rendered tile (mixed-mode caches decide per tile); TMS/KML fall back to the requested one
+        g_ct = z3.BoolVal(True) if tf is None else z3.Or(fmt == tf.t, z3.BoolVal('request' not in post.env))
+    yield ('content_type_is_image_slash_format', g_ct, "the declared content type is 'image/' + the format of the tile that is sent")
+    yield ('answer_is_the_rendered_tile_conditional_on_this_request', g,
+           'the body is tile.as_buffer() of the rendered tile; the cache headers (max_age = the configured max_tile_age) and '
+           'make_conditional(request.http) are applied to the Response that is returned')
+    so = [(i, e) for i, e in enumerate(st.trace) if e.name == 'setattr:origin']
+    lk = [(i, e) for i, e in T.evs(st, 'layer', 'TileServer.layer', 'KMLServer.layer')]
+    if 'tile_request' in post.env:
+        h = st.heap[post.env['self'].ref]
+        want = z3.And(ex.truth(st, h['origin']), z3.Not(ex.truth(st, ex.opaque_field_at(st, st.trace[0], req, 'origin'))))
+        g2 = want == z3.BoolVal(len(so) == 1)
+        for i, e in so:
+            g2 = z3.And(g2, z3.BoolVal(e.recv is not None and e.recv.t.eq(req.t) and bool(lk) and i < lk[0][0]), eq(e.args[1], h['origin']))
+        yield ('service_origin_applies_unless_request_has_one', g2,
+               'the origin configured for the TMS service is put on the request exactly when the request names none, before '
+               'the layer (and with it the tile address) is resolved')
+    elif 'map_request' in post.env:
+        g2 = z3.BoolVal(len(so) == 1 and bool(lk) and so[0][0] < lk[0][0] and isinstance(so[0][1].args[1], VStr) and so[0][1].args[1].conc() == 'sw')
+        yield ('kml_addresses_are_south_west', g2, "KML tile addresses are always resolved with origin 'sw'")
+
+
+SVC_FIELDS = {'cacheable': 'bool', 'timestamp': 'opt[real]', 'size': 'opt[int]', 'http': 'opaque', 'origin': 'opaque',
+              'format': 'opaque'}
 SVC_SPEC = {'render': {'raises': ['RequestError'], 'returns': 'opaque'}, 'Response': {'pure': True},
             'layer': {'raises': ['RequestError']}, 'authorize_tile_layer': {'raises': ['RequestError']},
             'check_request': {'raises': ['RequestError']}, 'check_request_dimensions': {'raises': ['RequestError']},
@@ -87,9 +141,9 @@ for key, arg in (('mapproxy.service.tile:TileServer.map', 'tile_request'),
                                            origin='opaque', matrix_sets='opaque', info_formats='opaque',
                                            request_parser='opaque', capabilities_class='opaque', fi_transformers='opaque'))
     contract(key, props=['C20'], types={arg: 'opaque'}, returns='opaque', default_callee='opaque', opaque=['Response'],
-             opaque_fields=SVC_FIELDS, stable_fields=['cacheable', 'timestamp', 'size'],
+             opaque_fields=SVC_FIELDS, stable_fields=['cacheable', 'timestamp', 'size', 'http'],
              opaque_spec=dict(SVC_SPEC, layer={'raises': ['RequestError'], 'returns': 'tuple[opaque,opt[opaque]]'}) if key.endswith('TileServer.map') else SVC_SPEC,
-             raises={'RequestError': True}, trace=[_uncacheable_gets_no_store, _handler_protocol])
+             raises={'RequestError': True}, trace=[_uncacheable_gets_no_store, _handler_protocol, _tile_answer])
 
 
 # ---- Response.make_conditional / cache_headers -------------------------------------------------------------------------
